@@ -302,6 +302,64 @@ def closure_factory():
     return d
 
 
+def kwargs_reordered():
+    """keyword arguments written in another order than the parameters, with parameters of different types"""
+    f = {"k": "def", "f": "scale", "params": [("x", SI), ("y", PI)], "ret": SI,
+         "body": [{"k": "bin", "x": "d", "op": "OMul", "a": "x", "b": "y"}], "res": "d", "form": "decorator"}
+    g = {"k": "def", "f": "sub", "params": [("x", SI), ("y", SI)], "ret": SI,
+         "body": [{"k": "bin", "x": "d", "op": "OSub", "a": "x", "b": "y"}], "res": "d", "form": "decorator"}
+    return prog([f, g, inp("s", "s", SI), inp("q", "q", PI), inp("t", "t", SI),
+                 {"k": "call", "x": "r1", "f": "scale", "args": [], "kwargs": [("y", "q"), ("x", "s")]},
+                 {"k": "call", "x": "r2", "f": "sub", "args": [], "kwargs": [("y", "t"), ("x", "s")]},
+                 {"k": "call", "x": "r3", "f": "scale", "args": ["s"], "kwargs": [("y", "q")]}],
+                [("o1", "P0", "r1"), ("o2", "P0", "r2"), ("o3", "P1", "r3")], ["kwargs", "kwargs-reordered"])
+
+
+def unzip_compound():
+    """unzip whose halves have compound element types (tuples, nested arrays)"""
+    return prog([inp("a", "a", ("arr", SI, 3)), inp("b", "b", ("arr", PI, 3)), inp("c", "c", ("arr", SU, 3)),
+                 inp("mtx", "mtx", ("arr", ("arr", SI, 2), 3)),
+                 {"k": "zip", "x": "ab", "a": "a", "b": "b"}, {"k": "zip", "x": "abc", "a": "ab", "b": "c"},
+                 {"k": "unzip", "x": "u1", "a": "abc"},
+                 {"k": "zip", "x": "mc", "a": "mtx", "b": "c"}, {"k": "unzip", "x": "u2", "a": "mc"},
+                 {"k": "zip", "x": "ba", "a": "b", "b": "a"}, {"k": "unzip", "x": "u3", "a": "ba"},
+                 {"k": "zip", "x": "bba", "a": "b", "b": "ba"}, {"k": "unzip", "x": "u4", "a": "bba"}],
+                [("o1", "P0", "u1"), ("o2", "P0", "u2"), ("o3", "P1", "u3"), ("o4", "P1", "u4")], ["unzip-compound"])
+
+
+def reduce_public_seed():
+    """a secret fold started from a public (non-literal) seed"""
+    f = {"k": "def", "f": "add", "params": [("acc", SI), ("e", SI)], "ret": SI,
+         "body": [{"k": "bin", "x": "s", "op": "OAdd", "a": "acc", "b": "e"}], "res": "s", "form": "decorator"}
+    return prog([inp("a", "a", ("arr", SI, 3)), inp("seed", "seed", PI), inp("w", "w", PI, "P1"), f,
+                 {"k": "bin", "x": "d", "op": "OMul", "a": "seed", "b": "w"},
+                 {"k": "reduce", "x": "r1", "a": "a", "f": "add", "init": "seed"},
+                 {"k": "reduce", "x": "r2", "a": "a", "f": "add", "init": "d"}],
+                [("o1", "P0", "r1"), ("o2", "P0", "r2")], ["reduce-public-seed"])
+
+
+def rebound_closure_variable():
+    """one plain def used by two map / reduce operations with a free variable rebound in between"""
+    body1 = [{"k": "bin", "x": "s", "op": "OSub", "a": "e", "b": "b1"}]
+    body2 = [{"k": "bin", "x": "s", "op": "OSub", "a": "e", "b": "b2"}]
+    st = [inp("xs", "xs", ("arr", SI, 2)), inp("ys", "ys", ("arr", SI, 3)), inp("b1", "b1", SI), inp("b2", "b2", SI, "P1"),
+          {"k": "def", "f": "add_bias", "params": [("e", SI)], "ret": SI, "body": body1, "res": "s", "form": "plain"},
+          {"k": "map", "x": "m1", "a": "xs", "f": "add_bias"},
+          {"k": "def", "f": "add_bias", "params": [("e", SI)], "ret": SI, "body": body2, "res": "s", "form": "plain"},
+          {"k": "map", "x": "m2", "a": "ys", "f": "add_bias"}]
+    text = ("from nada_dsl import *\n\n\ndef nada_main():\n    party_P0 = Party(name='P0')\n    party_P1 = Party(name='P1')\n"
+            "    xs = Array(SecretInteger(Input(name='xs', party=party_P0)), size=2)\n"
+            "    ys = Array(SecretInteger(Input(name='ys', party=party_P0)), size=3)\n"
+            "    b1 = SecretInteger(Input(name='b1', party=party_P0))\n    b2 = SecretInteger(Input(name='b2', party=party_P1))\n"
+            "    bias = b1\n"
+            "    def add_bias(e: SecretInteger) -> SecretInteger:\n        s = e - bias\n        return s\n"
+            "    m1 = xs.map(add_bias)\n    bias = b2\n    m2 = ys.map(add_bias)\n"
+            "    return [Output(m1, 'o1', party_P0), Output(m2, 'o2', party_P1)]\n")
+    d = prog(st, [("o1", "P0", "m1"), ("o2", "P1", "m2")], ["rebound-closure"])
+    d["text"] = text
+    return d
+
+
 def all_families():
     return [nested_capture(), reduce_computed_initial(), shared_function_two_sites(), function_calls_function(),
             compound_types(), array_param(), size_zero_array(), helper_from_two_functions(), same_value_two_types(),
@@ -309,4 +367,4 @@ def all_families():
             inner_public_secret(), inner_int_uint(), untruthful_annotation(), secret_flows(), signatures(), output_of_function(),
             dup_inputs("same-party"), dup_inputs("same-party-diff-type"), dup_inputs("diff-party"), dup_inputs("diff-party-one-dead"),
             dup_inputs("same-party-one-dead"), literal_array_inner(), object_key_order(), literal_divisions(),
-            closure_factory()] + rejected_functions()
+            closure_factory(), kwargs_reordered(), unzip_compound(), reduce_public_seed(), rebound_closure_variable()] + rejected_functions()
